@@ -458,7 +458,8 @@ cJSON *change_password(const struct peer *p, const cJSON *request, const char *u
 		}
 
 		char *encrypted = crypt(passwd, salt);
-		if (encrypted == NULL) {
+		/* crypt() may also report a failure (e.g. a passphrase that is too long) with a token that starts with '*' and is no hash */
+		if ((encrypted == NULL) || (encrypted[0] == '*')) {
 			response = create_error_response_from_request(p, request, INVALID_PARAMS, "reason", "could not encrypt password");
 			goto out;
 		}
